@@ -63,7 +63,8 @@ def _agree_worker(task):
                 kw = gv[-1][1] if gv else {}
                 ok = (len(gv) == 1 and kw.get('obj') is not None and kw['obj'].eq(x) and (kw.get('random_int') is None or kw['random_int'].eq(r))
                       and kw.get('hint') is not None and kw['hint'].eq(uni.const(cap.scope['__beartype_raiser_hint'])) and kw['conf'].eq(uni.const(cap.scope['__beartype_conf'])))
-                if is_warn: ok = ok and len(wn) == 1 and wn[0][1][0].eq(z3.Function('str_of', M.Obj, M.Obj)(VIOL))
+                # the violation itself is warned: either the instance (warn(v): category and text are the instance's own) or its text under its class
+                if is_warn: ok = ok and len(wn) == 1 and (wn[0][1][0].eq(VIOL) or wn[0][1][0].eq(z3.Function('str_of', M.Obj, M.Obj)(VIOL)))
                 else: ok = ok and isinstance(v, VObj) and v.t.eq(VIOL) and not wn
                 if not ok: frames_ok = False; why = f'path {k}: get_violation kwargs {list(kw)} warn={len(wn)}'
             else: frames_ok = False; why = f'unexpected completion {k}'
@@ -187,9 +188,17 @@ def _explain_worker(task):
         class VParam(Exception): pass
         class VRet(Exception): pass
         class WDoor(UserWarning): pass
+        class CulpritWarning(UserWarning):
+            # a Warning class whose constructor follows beartype's own violation signature (message, culprits)
+            def __init__(self, message, culprits=None):
+                super().__init__(message); self.culprits = culprits
+        class CulpritWarning2(UserWarning):
+            def __init__(self, message, culprits):
+                super().__init__(message); self.culprits = culprits
         CONFS = {'default': (BeartypeConf(), BeartypeDoorHintViolation, BeartypeCallHintParamViolation, BeartypeCallHintReturnViolation, False),
                  'custom': (BeartypeConf(violation_door_type=VDoor, violation_param_type=VParam, violation_return_type=VRet), VDoor, VParam, VRet, False),
                  'mixed': (BeartypeConf(violation_param_type=VParam, violation_return_type=WDoor, violation_door_type=WDoor), WDoor, VParam, WDoor, True),
+                 'culpritwarn': (BeartypeConf(violation_type=CulpritWarning2), CulpritWarning2, CulpritWarning2, CulpritWarning2, True),
                  'nonrandom': (BeartypeConf(is_random=False), BeartypeDoorHintViolation, BeartypeCallHintParamViolation, BeartypeCallHintReturnViolation, False),
                  'On': (BeartypeConf(strategy=shapes.NS['BeartypeStrategy'].On), BeartypeDoorHintViolation, BeartypeCallHintParamViolation, BeartypeCallHintReturnViolation, False)}
         conf, Vd, Vp, Vr, _ = CONFS[conf_name]
@@ -215,7 +224,7 @@ def _explain_worker(task):
                 def expect(label, thunk, V):
                     with warnings.catch_warnings(record=True) as w:
                         warnings.simplefilter('always')
-                        try: thunk(); raised = None
+                        try: got = thunk(); raised = None
                         except BaseException as e: raised = e
                     warned = [x for x in w if issubclass(x.category, V)] if issubclass(V, Warning) else []
                     if ok:
@@ -224,6 +233,7 @@ def _explain_worker(task):
                     if issubclass(V, Warning):
                         if raised is not None: return f'{label}: configured Warning class but raised {type(raised).__name__}: {raised}'[:200]
                         if not warned: return f'{label}: rejected by is_bearable but no {V.__name__} warning and no exception'
+                        if label == 'return' and got is not o: return f'return: the violation was only warned about, yet the wrapper returned {type(got).__name__} instead of the callable\'s own return value'
                         msg = str(warned[0].message)
                     else:
                         if raised is None: return f'{label}: rejected by is_bearable but returned silently'
@@ -260,7 +270,8 @@ def explain(rep, tier, seed):
     hints += shapes.sample_shapes(2, 60 if tier == 'quick' else 500, seed + 7)
     hints += ['tuple[Iterable[int], int]', 'tuple[Iterator[int], str]', 'list[Iterable[int]]', 'tuple[Collection[int], int]', 'dict[str, Iterable[int]]', 'Union[Iterable[int], str]']
     confs = ['default', 'custom'] if tier == 'quick' else ['default', 'custom', 'mixed', 'nonrandom', 'On']
-    T = [(h, c) for h in hints for c in confs] + [(h, 'mixed') for h in hints[:40]] + [(h, 'On') for h in hints[::3]] + [(h, 'nonrandom') for h in hints[::5]]
+    hints += ['(int, list[int])', '(L0, str)', 'NoReturn' if False else 'tuple[()]']      # old-style tuple unions as root hints
+    T = [(h, c) for h in hints for c in confs] + [(h, 'mixed') for h in hints[:40]] + [(h, 'culpritwarn') for h in hints[:12] + ['(int, list[int])']] + [(h, 'On') for h in hints[::3]] + [(h, 'nonrandom') for h in hints[::5]]
     T = list(dict.fromkeys(T))
     with mp.get_context('fork').Pool(int(os.environ.get('VERIF_PROCS', '16')), maxtasksperchild=10) as pool:
         res = pool.map(_explain_worker, T, chunksize=2)
